@@ -20,7 +20,8 @@ EXPLANATION = (
     "one-flag -> product = factor, else the exact helper; (R2) the call that may populate the flags dominates every encoder that reads "
     "them; (R3) the bound route and the constraint route of safe-sequence fixing impose the same relation on the same variable "
     "(x >= m <-> queue_set_var_lower_bound(x, m); x == 1 <-> queue_fix_variable(x, 1)); (R4) the safety rows conform to the frozen "
-    "formulation table (layer bound min(len(to_fix), k), multiplicity guard, protection-set skip, builders of the protection set); "
+    "formulation table (layer bound min(len(to_fix), k), multiplicity guard, protection-set skip, builders of the protection set), and so do "
+    "the subpath/subset-constraint rows through which the safety-as-constraints options act; "
     "(R5) greedy / guessed-weights results are adopted only under the tests that tie them to the k under test; (R6) every option key "
     "written is read under the same spelling; (R7) constraint edges enter the trusted set only under a full-coverage test.  "
     "NOT decided: that fixing safe sequences / pruning edges preserves the optimum (C06), equality of optima."
